@@ -112,12 +112,14 @@ def classify(s, public):
 
 def work(task):
     alphabet, prefix, total_len, public = task
+    # prefix is a tuple of alphabet symbols (symbols may be multi-character
+    # tokens); total_len counts symbols
     rest = total_len - len(prefix)
     n = acc = 0
     bad = []
     sample = None
     for tail in itertools.product(alphabet, repeat=rest):
-        s = prefix + "".join(tail)
+        s = "".join(prefix) + "".join(tail)
         n += 1
         r = classify(s, public)
         if ref_parse(s) is not None:
@@ -144,7 +146,7 @@ def tasks_for(alphabet, maxlen, public_maxlen, split=3):
     for L in range(0, maxlen + 1):
         k = min(L, split)
         for pre in itertools.product(alphabet, repeat=k):
-            out.append((alphabet, "".join(pre), L, L <= public_maxlen))
+            out.append((alphabet, tuple(pre), L, L <= public_maxlen))
     return out
 
 
@@ -170,6 +172,10 @@ def run(ctx):
         plans = [(("a", "<", ">", ","), 12, 8), (("a", " ", "é", "<", ">", ","), 8, 6)]
     else:
         plans = [(("a", "<", ">", ","), 14, 10), (("a", "b", " ", "é", "\n", "<", ">", ","), 8, 6)]
+    # token-level enumeration: names that coincide with built-in codec names
+    # must be treated like any other name (the grammar knows no keywords)
+    tok = ("a", "bool", "string", "<", ">", ",")
+    plans = plans + [(tok, 7 if ctx.tier == "quick" else 8, 6)]
     tasks = []
     for alpha, maxlen, pub in plans:
         tasks += tasks_for(alpha, maxlen, pub)
@@ -216,7 +222,8 @@ def run(ctx):
             {"scenario": "parse_type", "input": s, "kind": kind,
              "detail": detail, "expected": repr(ref_parse(s)),
              "after_batch": None if task is None else
-             {"alphabet": list(task[0]), "prefix": task[1], "length": task[2]}},
+             {"alphabet": list(task[0]), "prefix": list(task[1]),
+              "length": task[2]}},
         )
     rejected_samples = ["a<b>c", "a<b>>", "a<,b>"]
     cov = {
@@ -253,7 +260,8 @@ def replay(doc):
     s = doc["input"]
     ab = doc.get("after_batch")
     if ab:
-        bad = work((tuple(ab["alphabet"]), ab["prefix"], ab["length"], False))[2]
+        bad = work((tuple(ab["alphabet"]), tuple(ab["prefix"]), ab["length"],
+                    False))[2]
         hit = [b for b in bad if b[0] == s]
         print("after batch %r: %r" % (ab, hit[:2]))
         return 1 if hit else 0
